@@ -548,6 +548,85 @@ Fixpoint bad_escape (raw : bytes) : bool :=
       else bad_escape r
   end.
 
+
+(* ================= host letter case as Go folds it ================= *)
+(* strings.ToLower: byte-wise A-Z folding when every byte is ASCII; otherwise
+   strings.Map(unicode.ToLower, s): the text is decoded as UTF-8, every byte that does not start
+   a well-formed sequence becomes U+FFFD (EF BF BD — so DIFFERENT invalid bytes fold to the SAME
+   text), every code point is mapped by unicode.ToLower and re-encoded (the length may change:
+   U+0130 -> "i", U+212A KELVIN SIGN -> "k"). [lower_rune] carries the case pairs of the blocks
+   the generator draws from (Basic Latin, Latin-1, Latin Extended-A up to U+012F, U+0130, Greek
+   and Cyrillic capitals, the three letter-like signs); every other code point is left alone. *)
+Definition lower_rune (r : N) : N :=
+  if (65 <=? r) && (r <=? 90) then r + 32
+  else if (192 <=? r) && (r <=? 222) && negb (r =? 215) then r + 32
+  else if (256 <=? r) && (r <=? 303) then (if N.even r then r + 1 else r)
+  else if r =? 304 then 105
+  else if (913 <=? r) && (r <=? 937) && negb (r =? 930) then r + 32
+  else if (1024 <=? r) && (r <=? 1039) then r + 80
+  else if (1040 <=? r) && (r <=? 1071) then r + 32
+  else if r =? 8490 then 107
+  else if r =? 8491 then 229
+  else if r =? 8486 then 969
+  else r.
+Definition encode_rune (r : N) : bytes :=
+  if r <? 128 then [r]
+  else if r <? 2048 then [192 + r / 64; 128 + r mod 64]
+  else if r <? 65536 then [224 + r / 4096; 128 + (r / 64) mod 64; 128 + r mod 64]
+  else [240 + r / 262144; 128 + (r / 4096) mod 64; 128 + (r / 64) mod 64; 128 + r mod 64].
+Definition cont (lo hi c : N) : bool := (lo <=? c) && (c <=? hi).
+(* utf8.DecodeRune: (code point, width) of a well-formed sequence at the head, else None *)
+Definition decode_rune (s : bytes) : option (N * nat) :=
+  match s with
+  | [] => None
+  | b0 :: r =>
+      if b0 <? 128 then Some (b0, 1%nat)
+      else if cont 194 223 b0 then
+        match r with b1 :: _ => if cont 128 191 b1 then Some ((b0 - 192) * 64 + (b1 - 128), 2%nat) else None | _ => None end
+      else if cont 224 239 b0 then
+        match r with
+        | b1 :: b2 :: _ =>
+            let lo := if b0 =? 224 then 160 else 128 in
+            let hi := if b0 =? 237 then 159 else 191 in
+            if cont lo hi b1 && cont 128 191 b2
+            then Some ((b0 - 224) * 4096 + (b1 - 128) * 64 + (b2 - 128), 3%nat) else None
+        | _ => None
+        end
+      else if cont 240 244 b0 then
+        match r with
+        | b1 :: b2 :: b3 :: _ =>
+            let lo := if b0 =? 240 then 144 else 128 in
+            let hi := if b0 =? 244 then 143 else 191 in
+            if cont lo hi b1 && cont 128 191 b2 && cont 128 191 b3
+            then Some ((b0 - 240) * 262144 + (b1 - 128) * 4096 + (b2 - 128) * 64 + (b3 - 128), 4%nat) else None
+        | _ => None
+        end
+      else None
+  end.
+Fixpoint map_runes (fuel : nat) (s : bytes) : bytes :=
+  match fuel, s with
+  | O, _ => []
+  | _, [] => []
+  | S f, _ :: r =>
+      match decode_rune s with
+      | Some (c, w) => encode_rune (lower_rune c) ++ map_runes f (skipn w s)
+      | None => [239; 191; 189] ++ map_runes f r
+      end
+  end.
+Definition go_lower (s : bytes) : bytes :=
+  if forallb (fun c => c <? 128) s then to_lower s else map_runes (length s) s.
+(* splitHostPath lower-cases the text before the first "/" *)
+Definition lower_key (k : bytes) : bytes :=
+  go_lower (upto_slash k) ++ skipn (length (upto_slash k)) k.
+(* serveHTTP with Go's folding made explicit: the key handed to Match, host part folded as Go
+   does; Insert likewise. On folded text the A-Z folding inside [split_host_path] is the identity. *)
+Definition tserve_u (sites : list (bytes * N)) (xf : list bytes) (hh up : bytes) (proto : N) : routed :=
+  let root := tbuild (map (fun s => (lower_key (fst s), snd s)) sites) in
+  match ttrie_match root (default_fallbacks ++ xf) (lower_key (strip_port hh ++ up)) with
+  | Some (s, prefix) => Site s prefix
+  | None => NotFound (if 2 <=? proto then 421 else 404)
+  end.
+
 (* one observed request of a multi-listener case *)
 Record mreq := { mq_srv : N; mq_host : bytes; mq_path : bytes; mq_proto : N; mq_simple : bool;
                  mq_trace : list N; mq_status : N; mq_prefix : bytes; mq_opath : bytes }.
@@ -560,6 +639,9 @@ Inductive case :=
 (* listeners created one after the other in one process (site ids unique over the whole
    process), then requests to any of them *)
 | CMulti (groups : list group) (reqs : list mreq)
+(* a request whose Host (or a declared host) has non-ASCII bytes: Go's Unicode-aware folding *)
+| CRouteU (sites : list (bytes * N)) (extra_fallbacks : list bytes) (host_header url_path : bytes)
+          (proto : N) (obs_trace : list N) (obs_status : N) (obs_prefix obs_path : bytes)
 (* a raw origin-form request-target: [go_path] is URL.Path as url.ParseRequestURI produced it
    (None: rejected); the model decodes [raw] itself *)
 | CTarget (sites : list (bytes * N)) (extra_fallbacks : list bytes) (host_header raw : bytes)
@@ -588,6 +670,16 @@ Definition judge (c : case) : N :=
       let st := process groups in
       let rs := map (judge_mreq groups st) reqs in
       verdict (forallb fst rs) (forallb snd rs)
+  | CRouteU sites xf hh up proto otrace ost oprefix opath =>
+      (* the spec is evaluated on the folded names: declared hosts and request host folded as Go
+         folds them, then "most specific pattern, longest prefix" as for ASCII names *)
+      let sites' := map (fun s => (lower_key (fst s), snd s)) sites in
+      let hh' := go_lower (strip_port hh) in
+      if beq (strip_port hh') hh' && forallb (fun c => negb (c =? SLASH)) hh && beq (upto_slash up) [] then
+        let '(agree, spec_ok) := judge_route sites' xf hh' up proto false otrace ost oprefix opath
+                                             (tserve_u sites xf hh up proto) in
+        verdict agree spec_ok
+      else verdict false true
   | CTarget sites xf hh raw gp proto otrace ost oprefix opath =>
       match target_path raw, gp with
       | Some up, Some g =>
